@@ -204,7 +204,10 @@ impl<'ctx> Ledger<'ctx> {
                 target,
             }) => {
                 let mut converted = Balance::default();
-                for (account, original_amount) in balance.iter() {
+                // sorted so that the reported error is stable when several rates are missing.
+                let mut accounts: Vec<_> = balance.iter().collect();
+                accounts.sort_unstable_by_key(|(account, _)| account.as_str());
+                for (account, original_amount) in accounts {
                     converted.add_amount(
                         *account,
                         price_db::convert_amount(
